@@ -26,12 +26,16 @@
 //      no GMP), and the number of accepted values must be q; larger p: boundary values, 64 members, 64 non-members.
 //      PedersenCommitmentScheme::TestMembership is held to the same predicate (since /repo 4a28817 it tests the order too).
 //
-//  Not judged (executed only): negative p/q/k (opt-in --judge-negative treats them as ill-formed; on the pinned tree every
-//  CheckGroup that derives k = (p-1)/q then reports accepts-ill-formed/negative for q := -q, see findings/c06_checkgroup_negative_q.cc)
-//  and members a class does not validate by design (GroupQR::k, GrothVSSHE's own p,g,h and public com, EDCF's own p,q,g,h).
+//  Negative p, q, k count as ill-formed (every CheckGroup refuses non-positive p, q since /repo c7a0fc0; before that the classes
+//  deriving k = (p-1)/q accepted q := -q, findings/c06_checkgroup_negative_q.cc).  Not judged (executed only): members a class
+//  does not validate by design (GroupQR::k, GrothVSSHE's own p,g,h and public com, EDCF's own p,q,g,h).
+//  Many generators ("manygen" regime, 64/40-bit group): PedersenCommitmentScheme (random / public coin), GrothSKC and GrothVSSHE
+//  with n = 255, 256, 257, 300 generators, i.e. on both sides of TMCG_MAX_FPOWM_N = 256, the only bound other than the container
+//  size that the library uses in loops over generators (PedersenCOM.cc); the per-generator catalogue is applied to EVERY index,
+//  "x := other generator" to the neighbours, the first three, the last and the indices around 256.
 //  Generation runs under a coin budget (see generate()): tmcg_mpz_lprime can spin forever on an unlucky toy-size q.
 //
-// Regimes: tiny (F,G) = (16,8) [QR: 16, E=8] and (20,10); small (256,160); default (2048,256) / QR 512.
+// Regimes: tiny (F,G) = (16,8) [QR: 16, E=8] and (20,10); manygen (64,40); small (256,160); default (2048,256) / QR 512.
 // Tiers: quick = tiny, 4 sets of (16,8) + 1 of (20,10);  thorough = tiny 16+4 sets, small 8 sets, default 1 set.
 #include "drv.hh"
 #include "c06_subjects.hh"
@@ -162,7 +166,7 @@ static void build_catalogue(std::vector<Entry> &E, const PSet &s)
 	add1(E, P + "p:=next-composite", s.p, t.v, true);
 	if (s.F >= 4) { prime_below_pow2(t.v, s.F - 1); add1(E, P + "p:=prime-one-bit-short", s.p, t.v, true); }
 	next_prime_ref(t.v, p.v), add1(E, P + "p:=next-prime", s.p, t.v, false);
-	mpz_neg(t.v, p.v), add1(E, P + "p:=-p", s.p, t.v, false, "", true);
+	mpz_neg(t.v, p.v), add1(E, P + "p:=-p", s.p, t.v, true);
 	// ---- q
 	add1(E, P + "q:=0", s.q, zero.v, true), add1(E, P + "q:=1", s.q, one.v, true), add1(E, P + "q:=2", s.q, two.v, true);
 	add1(E, P + "q:=p-1", s.q, pm1.v, true), add1(E, P + "q:=p", s.q, p.v, true), add1(E, P + "q:=p+1", s.q, pp1.v, true);
@@ -174,7 +178,7 @@ static void build_catalogue(std::vector<Entry> &E, const PSet &s)
 	next_prime_ref(t.v, q.v), add1(E, P + "q:=next-prime", s.q, t.v, true);
 	if (s.G >= 4) { prime_below_pow2(t.v, s.G - 1); add1(E, P + "q:=prime-one-bit-short", s.q, t.v, true); }
 	if (havek) add1(E, P + "q:=k", s.q, k.v, true);
-	mpz_neg(t.v, q.v), add1(E, P + "q:=-q", s.q, t.v, false, "", true);
+	mpz_neg(t.v, q.v), add1(E, P + "q:=-q", s.q, t.v, true);
 	// ---- k (only where it is a member that CheckGroup reads)
 	if (s.k)
 	{
@@ -187,7 +191,7 @@ static void build_catalogue(std::vector<Entry> &E, const PSet &s)
 		mpz_sub_ui(t.v, k.v, 2), add1(E, P + "k:=k-2", s.k, t.v, true);
 		mpz_mul_2exp(t.v, k.v, 1), add1(E, P + "k:=2k", s.k, t.v, true);
 		add1(E, P + "k:=q", s.k, q.v, true), add1(E, P + "k:=p", s.k, p.v, true), add1(E, P + "k:=p-1", s.k, pm1.v, true);
-		mpz_neg(t.v, k.v), add1(E, P + "k:=-k", s.k, t.v, false, "", true);
+		mpz_neg(t.v, k.v), add1(E, P + "k:=-k", s.k, t.v, true);
 	}
 	// ---- generators
 	Z zeta, nonm;
@@ -209,7 +213,8 @@ static void build_catalogue(std::vector<Entry> &E, const PSet &s)
 		mpz_mul(t.v, x.v, x.v), mpz_mod(t.v, t.v, p.v), add1(E, N + ":=x^2", d, t.v, iscanon, iscanon && !s.distinct ? "canon" : "");
 		if (mpz_invert(t.v, x.v, p.v)) add1(E, N + ":=x^-1", d, t.v, iscanon);
 		for (size_t gj = 0; gj < s.gens.size(); gj++)
-			if (gj != gi)
+			if (gj != gi && (s.gens.size() <= 16 || gj <= 2 || gj + 1 == s.gens.size() || gi + 1 == gj || gj + 1 == gi
+				|| (gj >= TMCG_MAX_FPOWM_N - 1 && gj <= TMCG_MAX_FPOWM_N + 2)))   // many generators: x := neighbours, first, last, table-bound indices
 				add1(E, N + ":=" + s.gens[gj].first, d, s.gens[gj].second, s.distinct || iscanon,
 					(s.distinct && !iscanon) ? "distinct:" + s.gens[std::min(gi, gj)].first + "=" + s.gens[std::max(gi, gj)].first : "");
 		if (s.canon == 1 && gi == 0 && havek)
@@ -377,7 +382,8 @@ static std::string describe(const Subject &S)
 		const PSet &s = S.sets[i];
 		d += " " + s.name + "p=" + Z(s.p).str().substr(0, 48) + " " + s.name + "q=" + Z(s.q).str().substr(0, 48);
 		if (s.k) d += " " + s.name + "k=" + Z(s.k).str().substr(0, 48);
-		for (size_t g = 0; g < s.gens.size(); g++) d += " " + s.name + s.gens[g].first + "=" + Z(s.gens[g].second).str().substr(0, 48);
+		for (size_t g = 0; g < s.gens.size() && g < 6; g++) d += " " + s.name + s.gens[g].first + "=" + Z(s.gens[g].second).str().substr(0, 48);
+		if (s.gens.size() > 6) d += " ... (" + str(s.gens.size()) + " generators)";
 	}
 	return d;
 }
@@ -389,8 +395,8 @@ static void judge(const Subject &S, const std::string &ename, bool must_ill, con
 	bool neg = false;
 	for (size_t i = 0; i < f.size(); i++) if (kind_of(f[i]) == "negative") neg = true;
 	bool got = guarded_check(S, ename);
-	bool judge_neg = R->args.has("judge-negative");   // opt-in: a negative p, q or k counts as ill-formed (findings/c06_checkgroup_negative_q.cc)
-	if ((unspec && !(neg && judge_neg)) || (neg && !judge_neg))
+	(void)neg;      // a negative p, q or k is ill-formed (condition "negative"); /repo c7a0fc0 made every CheckGroup refuse them
+	if (unspec)
 	{
 		R->ok(false);
 		R->counters[got ? "unspecified_accepted" : "unspecified_refused"]++;
@@ -656,7 +662,7 @@ int main(int argc, char **argv)
 	for (size_t ri = 0; ri < regs.size(); ri++)
 	{
 		const Regime &rg = regs[ri];
-		if (regsel != "all" && regsel != rg.name) continue;
+		if (regsel != "all" && regsel != rg.name && !(regsel == "tiny" && !strncmp(rg.name, "tiny", 4))) continue;
 		int nsets = setsarg > 0 ? (int)setsarg : rg.sets;
 		unsigned long le = rg.G / 2 > 32 ? 32 : rg.G / 2;
 		for (int set = 0; set < nsets; set++)
@@ -714,6 +720,40 @@ int main(int argc, char **argv)
 					mcenv::cur = nullptr;
 				}
 		}
+	}
+	// ---- many generators: both sides of TMCG_MAX_FPOWM_N
+	if (regsel == "all" || regsel == "manygen")
+	{
+		static const size_t NS[] = { TMCG_MAX_FPOWM_N - 1, TMCG_MAX_FPOWM_N, TMCG_MAX_FPOWM_N + 1, 300 };
+		static const char *MANY[] = { "pedersen_com", "pedersen_com_publiccoin", "groth_skc", "groth_vsshe" };
+		const unsigned long F = 64, G = 40, le = 20;
+		int nsets = setsarg > 0 ? (int)setsarg : (thorough ? 2 : 1);
+		for (int set = 0; set < nsets; set++)
+			for (size_t ni = 0; ni < 4; ni++)
+				for (int c = 0; c < 4; c++)
+				{
+					size_t n = NS[ni];
+					std::string cname = std::string(MANY[c]) + "_n" + str(n);
+					std::string cid = "grp:" + cname + ":manygen:" + str(set);
+					if (!R->mine() || !R->selected(cid)) continue;
+					if (!clssel.empty() && clssel != cname) continue;
+					if (R->out_of_time()) goto done;
+					mcenv::CoinSource cs(mcenv::env_seed(), 0);
+					mcenv::cur = &cs;
+					Subject *S = generate(cs, 0x6c000 + set * 64 + ni * 8 + c, F, [&]() -> Subject * {
+						switch (c)
+						{
+							case 0: return mk_pedcom(n, F, G, false);
+							case 1: return mk_pedcom(n, F, G, true);
+							case 2: return mk_skc(n, le, F, G);
+							default: { Ctx ctx = make_ctx(F, G, false); return mk_vsshe(ctx, n, le, F, G); }
+						}
+					});
+					if (!S) { harness_error("could not generate " + cid); mcenv::cur = nullptr; continue; }
+					S->cls += "/n=" + str(n);
+					run_cell(S, cid, what);
+					mcenv::cur = nullptr;
+				}
 	}
 done:
 	mcenv::cur = nullptr;
